@@ -204,6 +204,43 @@ def run_profiles(case):
             rt_tol = 1e-10 + 100 * 2.2e-16 * h / z0
             if not e <= rt_tol:
                 bad("ustar_z0_roundtrip", rel=e, tol=rt_tol)
+    # integer-typed arguments (what YAML or a script yields for 'z_m: 10', 'wind: (3, 1)') must give the float-typed result
+    if case["idx"] % 4 == 0:
+        zi = max(2, int(round(zm)))
+        wi = (int(round(um)) or 1, int(round(vm)) or -1)
+        Li = int(round(L)) if abs(L) < 1e8 else 10**9
+        kwf = dict(mol=float(Li), prsc=prsc, closure=closure)
+        kwi = dict(mol=Li, prsc=prsc, closure=closure)
+        if tke is not None:
+            kwf["tke"], kwi["tke"] = 2.0, 2
+        if forcing == "ustar":
+            kwf["ustar"], kwi["ustar"] = 1.0 * max(0.25, round(ustar, 2)), max(0.25, round(ustar, 2))
+        else:
+            kwf["z0"], kwi["z0"] = 1.0, 1
+        ok_int = True
+        try:
+            with warnings.catch_warnings():
+                warnings.simplefilter("ignore")
+                with np.errstate(all="ignore"):
+                    zf, pf = vertical_profiles(int(n), float(zi), (float(wi[0]), float(wi[1])), **kwf)
+        except Exception:
+            ok_int = False  # the float-typed reference itself is outside the domain (e.g. derived z0 >= z_m)
+        if ok_int and len(zf) > n and np.all(np.isfinite(zf)):
+            for tname, T in (("int", int), ("np.int64", np.int64), ("np.int32", np.int32)):
+                counters["vertical_profiles_calls"] += 1
+                try:
+                    with warnings.catch_warnings():
+                        warnings.simplefilter("ignore")
+                        with np.errstate(all="ignore"):
+                            zt, pt = vertical_profiles(T(n), T(zi), (T(wi[0]), T(wi[1])), **{k_: (T(v_) if k_ in ("mol", "tke", "z0") and float(v_).is_integer() else v_) for k_, v_ in kwi.items()})
+                except Exception as e:  # noqa
+                    bad("integer_typed_arguments_raise", type=tname, exc=repr(e)[:160])
+                    continue
+                same_ = len(zt) == len(zf) and np.allclose(zt, zf, rtol=1e-13, atol=0) and all(
+                    np.allclose(np.asarray(a_, dtype=float), np.asarray(b__, dtype=float), rtol=1e-12, atol=1e-300) for a_, b__ in zip(pt, pf))
+                if not same_:
+                    bad("integer_typed_arguments_change_the_profiles", type=tname, values=dict(n=int(n), zm=zi, wind=wi, **{k_: repr(v_) for k_, v_ in kwi.items()}))
+            counters["int_typed_cases"] = counters.get("int_typed_cases", 0) + 1
     stab = "neutral" if abs(L) >= 1e8 else ("stable" if L > 0 else "unstable")
     b = {f"closure:{closure}": 1, f"forcing:{forcing}": 1, f"stab:{stab}": 1, f"grid:{gridp}": 1,
          f"n:{'1' if n == 1 else '2-8' if n <= 8 else '9-64'}": 1}
